@@ -44,6 +44,15 @@ type cmData struct {
 	tc    *cmCase
 	text  string
 	decls []cmDecl
+	extra []cmExtra // members of the table literal that mod.lua returns, hovered from u.lua
+	mod   string
+}
+
+// cmExtra: one member of the returned table literal: where it is hovered and the comment attached to it.
+type cmExtra struct {
+	name string
+	step int
+	doc  []string
 }
 
 var cmSeed int64 = 1
@@ -153,13 +162,38 @@ func cmBuild(id int, raw json.RawMessage) *Job {
 		d.text = strings.ReplaceAll(d.text, "\n", "\r\n")
 		other = strings.ReplaceAll(other, "\n", "\r\n")
 	}
-	pc := &proto.Case{ID: id, Files: map[string]string{"f.lua": d.text, "u.lua": other}, Init: json.RawMessage(allOnLocal)}
-	pc.Steps = append(pc.Steps, openStep("f.lua", d.text), openStep("u.lua", other))
+	// a module that returns a table literal: its members carry comments too (head block, trailing comment, none; the
+	// comment after the closing brace belongs to no member)
+	ta, tb, tcx := (rot+1)%6+1, (rot+3)%6+1, (rot+5)%6+1
+	d.mod = "return {\n  -- " + cmText[ta] + "\n  alpha = 1,\n  beta = 2, -- " + cmText[tb] + "\n\n  gamma = 3,\n} -- " + cmText[tcx] + "\n"
+	useLine := strings.Count(other, "\n") + 1
+	other += "local md = require(\"mod\")\nprint(md.alpha, md.beta, md.gamma)\n"
+	if strings.Contains(d.text, "\r\n") {
+		other = strings.ReplaceAll(strings.ReplaceAll(other, "\r\n", "\n"), "\n", "\r\n")
+	}
+	pc := &proto.Case{ID: id, Files: map[string]string{"f.lua": d.text, "u.lua": other, "mod.lua": d.mod}, Init: json.RawMessage(allOnLocal)}
+	// a seeded third of the files arrive as an unsaved edit: the file on disk (and first opened) is an older text, a
+	// didChange replaces the whole document, nothing is saved; hover is then about the text in the editor (and is
+	// asked in that document only: what other files see of an unsaved document's globals is not settled)
+	unsaved := hash64(string(raw), cmSeed+3)%3 == 0
+	if unsaved {
+		stale := "-- an older header\nlocal zz = 1 -- an older remark\n"
+		pc.Files["f.lua"] = stale
+		pc.Steps = append(pc.Steps, openStep("f.lua", stale), openStep("u.lua", other), changeStep("f.lua", 2, 0, 0, 2, 0, d.text))
+	} else {
+		pc.Steps = append(pc.Steps, openStep("f.lua", d.text), openStep("u.lua", other))
+	}
+	for k, e := range []cmExtra{{name: "alpha", doc: []string{cmText[ta]}}, {name: "beta", doc: []string{cmText[tb]}}, {name: "gamma"}} {
+		col := []int{9, 19, 28}[k]
+		pc.Steps = append(pc.Steps, proto.Step{M: "textDocument/hover", P: posParams("u.lua", useLine, col)})
+		e.step = len(pc.Steps) - 1
+		d.extra = append(d.extra, e)
+	}
 	for i := range d.decls {
 		pc.Steps = append(pc.Steps, proto.Step{M: "textDocument/hover", P: posParams("f.lua", nlines, d.decls[i].col)})
 		d.decls[i].hoverS = len(pc.Steps) - 1
 		d.decls[i].hoverS2 = -1
-		if d.decls[i].col2 >= 0 {
+		if d.decls[i].col2 >= 0 && !unsaved {
 			pc.Steps = append(pc.Steps, proto.Step{M: "textDocument/hover", P: posParams("u.lua", 1, d.decls[i].col2)})
 			d.decls[i].hoverS2 = len(pc.Steps) - 1
 		}
@@ -205,6 +239,27 @@ func cmJudge(c *Ctx, j *Job, res *proto.Result) {
 	c.Rep.Eval(string(j.Raw))
 	if res.Crash != "" || res.Hang {
 		c.Rep.Violation(j.Raw, fmt.Sprintf("server died or hung (crash=%q hang=%v) on %q", res.Crash, res.Hang, d.text))
+		return
+	}
+	for _, e := range d.extra {
+		label, doc, ok := hoverParts(res.Steps[e.step].Reply)
+		var p string
+		if !ok {
+			p = "no hover for a defined member: " + string(res.Steps[e.step].Reply)
+		} else if !strings.Contains(label, e.name) {
+			p = fmt.Sprintf("label %q does not contain the identifier %s", label, e.name)
+		} else if strings.Join(doc, "\x00") != strings.Join(e.doc, "\x00") {
+			p = fmt.Sprintf("documentation shown is %q, the comment attached to the declaration is %q", doc, e.doc)
+		}
+		if p == "" {
+			continue
+		}
+		desc := fmt.Sprintf("hover on md.%s in u.lua (md = require(\"mod\")): %s — mod.lua %q", e.name, p, d.mod)
+		if surveyMode {
+			sv.add("retfield "+e.name+" "+firstWords(p, 3), desc)
+			continue
+		}
+		c.Rep.Violation(j.Raw, desc)
 		return
 	}
 	var asked []cmDecl
